@@ -595,7 +595,7 @@ class Frame:
             if name in LIBM1 or name in LIBM2 or name in ('fabs', 'abs', 'floor', 'ceil', 'copysign', 'trunc', 'isnan', 'isfinite', 'hypot'):
                 av = [self.ev(a, pc) for a in args]
                 return B.libm(name, av, pc, e[3])
-            if name.startswith('svd2_'):
+            if re.match(r'^svd[23]_', name):
                 av = [self.ev(a, pc) for a in args]
                 fn = 'f_' + name
                 B.funs[fn] = (['Real'] * len(av), 'Real')
